@@ -695,6 +695,9 @@ func (rt *runtime) toValue(value interface{}) Value {
 	case Value:
 		return value
 	case func(FunctionCall) Value:
+		if value == nil {
+			return Value{}
+		}
 		var name, file string
 		var line int
 		pc := reflect.ValueOf(value).Pointer()
@@ -744,6 +747,11 @@ func (rt *runtime) toValue(value interface{}) Value {
 		case reflect.Array:
 			return objectValue(rt.newGoArray(val))
 		case reflect.Func:
+			if val.IsNil() {
+				// As every other nil value: undefined, not a function that
+				// panics when it is called.
+				return Value{}
+			}
 			var name, file string
 			var line int
 			if v := reflect.ValueOf(val); v.Kind() == reflect.Ptr {
